@@ -295,7 +295,9 @@ def _run_base(ctx):
 
     # ---------------------------------------------------------------- R03.5
     prod = GEN + ':create_parent_deletion_counter_diff'
-    repo.func(prod)
+    _pf = repo.func(prod)
+    # (the builder may have been moved to a sibling module and imported back: compare by the function it is, not by where it lives)
+    prod = next((f for f, nd in repo.functions.items() if nd is _pf), prod)
     occ = []
     for m in repo.modules.values():
         for n in ast.walk(m.tree):
